@@ -5,8 +5,8 @@
 //   --schedules FILE                   replay each schedule (one JSON array per line)
 //   --random N --seed S [--randprog]   N random controlled executions (2..6 threads with --randprog)
 // Observation mode (E5 records from truly concurrent threads, validated by ThreadIdObs.tla):
-//   --obs --out FILE --sweeps K --maxthreads 64 --seed S
-//       K sweeps; each sweep runs one round for every n in 1..maxthreads: n threads are created,
+//   --obs --out FILE --sweeps K --maxthreads 64 --seed S [--sizes 1,2,3,4,8,16,32,64]
+//       K sweeps; each sweep runs one round for every n in 1..maxthreads (or in --sizes): n threads are created,
 //       released together by a barrier, call threadId() repeatedly during their whole life and
 //       record every returned value.  One {"e":"Obs",...} record per thread.
 //
@@ -97,8 +97,18 @@ static int runObs(const drv::Args& a) {
   uint64_t rng = (uint64_t)a.num("seed", 1) * 2654435761ULL + 99;
   long long records = 0;
   int round = 0;
+  std::vector<int> sizes;
+  if (a.has("sizes")) {
+    for (auto& x : drv::split(a.str("sizes"), ','))
+      if (!x.empty())
+        sizes.push_back(atoi(x.c_str()));
+  } else {
+    for (int n = 1; n <= maxThreads; ++n)
+      sizes.push_back(n);
+  }
   for (int s = 0; s < sweeps; ++s) {
-    for (int n = 1; n <= maxThreads; ++n, ++round) {
+    for (size_t si = 0; si < sizes.size(); ++si, ++round) {
+      const int n = sizes[si];
       std::vector<std::vector<long long>> ids((size_t)n);
       std::atomic<int> arrived{0}, phase2{0};
       std::vector<std::thread> ths;
